@@ -231,3 +231,22 @@ def slice_tail1(t):
         if agg_variant(ix) and ix[1][1].split('::')[-1] == 'RangeFrom' and const_of(ix[2][0]) == 1:
             return r
     return None
+
+
+def as_eq(c):
+    """Normalise a path condition that compares a term with an integer constant, whichever way it is written
+    (`match x { K => ..}`, `if x == K`, `if x != K`): (term, K, holds) — holds=True means term == K on this path,
+    False means term != K; a switch `otherwise` arm gives (term, (K1, K2, ..), False).  None for other conditions."""
+    t, op, val = c[0], c[1], c[2]
+    if isinstance(val, bool):
+        if t[0] == 'bin' and t[1] in ('Eq', 'Ne'):
+            for a, b in ((t[2], t[3]), (t[3], t[2])):
+                k = const_of(b)
+                if isinstance(k, int) and not isinstance(k, bool):
+                    return a, k, (t[1] == 'Eq') == val
+        return None
+    if op == 'eq' and isinstance(val, int):
+        return t, val, True
+    if op == 'ne' and isinstance(val, tuple):
+        return t, tuple(val), False
+    return None
